@@ -383,6 +383,21 @@ def rule_close_transport(ctx, rule):
     rep.add(rule, 'RSocketBase._close_transport / an obtained transport is closed', f, ok and n_closed > 0,
             'when the transport future is done and holds a transport, transport.close() is awaited (%d paths)' % len(ps)
             if ok and n_closed else 'close() can return without closing the transport it obtained')
+    # whatever transport.close() raises stays inside: close() and the reconnect loop go on after a transport that
+    # fails to close (a reset connection re-raises its error from close())
+    pe = ctx.paths(f, slots.RSocketClient, inline_depth=1, no_inline={'_current_transport', '_log_identifier'},
+                   exc={'app'})
+    escaped = [p for p in pe if p.outcome == 'raise' and
+               any(e.kind == 'call' and e.data.get('name') == 'close' and e.data.get('how') == 'app'
+                   for e in p.events[-3:])]
+    n_failing = sum(1 for p in pe if any(e.kind == 'call' and e.data.get('name') == 'close' and
+                                         e.data.get('how') == 'app' for e in p.events))
+    if n_failing < 2:
+        raise AnalysisError('%s: no path on which transport.close() fails was explored' % rule)
+    rep.add(rule, 'RSocketBase._close_transport / a failing transport.close() is contained', f, not escaped,
+            'an arbitrary exception from transport.close() is handled inside (%d paths)' % len(pe) if not escaped else
+            'an exception raised by transport.close() escapes _close_transport (line %s): the caller - close() or '
+            'the reconnect loop - ends there' % (escaped[0].events[-1].node.lineno if escaped[0].events else '?'))
     calls = [n.func.attr for n in sorted((x for x in walk_local(cl.node) if isinstance(x, ast.Call)),
                                          key=lambda x: (x.lineno, x.col_offset))
              if isinstance(n.func, ast.Attribute) and isinstance(n.func.value, ast.Name) and n.func.value.id == 'self']
